@@ -1,5 +1,5 @@
 CONSTANT Tier = "quick"
-CONSTANT Kinds = {"laws","bin","un","inc"}
+CONSTANT Kinds = {"laws"}
 INIT Init
 NEXT Next
 INVARIANT TotalResult
